@@ -1276,6 +1276,16 @@ def printable(x):
     return x
 
 
+def load_corpus():
+    """minimised past failures and hand-picked cells, run first in every tier"""
+    import glob
+    import os
+    out = []
+    for path in sorted(glob.glob(os.path.join(lib.VERIF, 'corpus', 'C04', '*.json'))):
+        out.append(json.load(open(path)))
+    return out
+
+
 def run(ctx):
     Pm = P()
     ctx.rule = ('operator (+ - * / // % **) x every ordered pair of operand forms (8 polymath classes, Python/NumPy '
@@ -1299,7 +1309,7 @@ def run(ctx):
                      {'declared': got, 'expected': t})
     if ctx.ensure_library():
         ctx.prove(['theories/Props/C04.v'])
-    cases = gen_cases(ctx.rng, ctx.tier)
+    cases = load_corpus() + gen_cases(ctx.rng, ctx.tier)
     ctx.log('%d cases' % len(cases))
     stride = 1 if ctx.tier == 'quick' else 2
     terms, idx, bad = [], [], []
